@@ -38,14 +38,28 @@ theorem pre_token_fuel (d : Bytes) : ∀ (fuel : Nat) (c : Ctx) (inp : Str),
 theorem pre_token (d : Bytes) (c : Ctx) (inp : Str) : appendAsToken (pre d c) inp = pre d (appendAsToken c inp) :=
   pre_token_fuel d 3 c inp
 
+theorem pre_commitAsToken (d : Bytes) (c : Ctx) : commitAsToken (pre d c) = pre d (commitAsToken c) := by
+  unfold commitAsToken
+  have e2 : (pre d c).bucket = c.bucket := rfl
+  rw [e2]
+  split
+  · simp [commit, pre, List.append_assoc]
+  · exact pre_commit d c
+
+theorem pre_finish (d : Bytes) (c : Ctx) (b : Bool) : finish (pre d c, b) = pre d (finish (c, b)) := by
+  unfold finish
+  cases b
+  · simp only [Bool.false_eq_true, if_false, pre_commitAsToken, pre_commit]
+  · simp only [if_true, pre_commit]
+
 theorem pre_parseChar (d : Bytes) (c : Ctx) (b : Bool) (ch : Nat) :
     parseChar (pre d c, b) ch = (pre d (parseChar (c, b) ch).1, (parseChar (c, b) ch).2) := by
   unfold parseChar
   dsimp only
   split
   · cases b
-    · simp only [Bool.not_false, if_true, pre_commit, pre_literal]
-    · simp only [Bool.not_true, Bool.false_eq_true, if_false, pre_commit, pre_token]
+    · simp only [Bool.false_eq_true, if_false, Bool.not_false, if_true, pre_commitAsToken, pre_commit, pre_literal]
+    · simp only [if_true, Bool.not_true, Bool.false_eq_true, if_false, pre_commit, pre_token]
   · split
     · rw [pre_literal]
     · split
@@ -79,6 +93,24 @@ theorem commit_of_clean (c : Ctx) (h : Clean c) : commit c = c := by
   simp only at h1 h2 h3
   subst h1 h2 h3
   simp [commit]
+
+theorem commitAsToken_clean (c : Ctx) : Clean (commitAsToken c) := by
+  unfold commitAsToken
+  split <;> exact commit_clean _
+
+theorem commitAsToken_of_clean (c : Ctx) (h : Clean c) : commitAsToken c = c := by
+  unfold commitAsToken
+  rw [h.2.2]
+  have : isToken [] = false := by decide +kernel
+  rw [this]
+  simp only [Bool.false_eq_true, if_false]
+  exact commit_of_clean c h
+
+theorem finish_of_clean (c : Ctx) (h : Clean c) (b : Bool) : finish (c, b) = c := by
+  unfold finish
+  cases b
+  · simp only [Bool.false_eq_true, if_false]; rw [commitAsToken_of_clean c h, commit_of_clean c h]
+  · simp only [if_true]; exact commit_of_clean c h
 
 /-- a special character outside a literal leaves nothing pending -/
 theorem special_clean (c : Ctx) (ch : Nat) (hs : isSpecial ch = true) (hq : ch ≠ 34) : Clean (parseChar (c, false) ch).1 := by
@@ -115,8 +147,14 @@ theorem encodeBody_append (a0 : Str) (s : Nat) (b : Str) (hs : isSpecial s = tru
   obtain ⟨c1, b1⟩ := st
   simp only at hclean hb
   subst hb
-  rw [clean_eq_pre c1 hclean, pre_fold, pre_commit]
-  rw [commit_of_clean (pre c1.done {}) ⟨rfl, rfl, rfl⟩]
+  rw [clean_eq_pre c1 hclean, pre_fold]
+  have hfin : finish (pre c1.done {}, false) = pre c1.done {} := by
+    unfold finish
+    simp only [Bool.false_eq_true, if_false]
+    rw [commitAsToken_of_clean _ ⟨rfl, rfl, rfl⟩, commit_of_clean _ ⟨rfl, rfl, rfl⟩]
+  rw [hfin]
+  show (finish (pre c1.done (List.foldl parseChar ({}, false) b).1, (List.foldl parseChar ({}, false) b).2)).done = _
+  rw [pre_finish]
   simp [pre]
 
 end Moto.Basic
